@@ -589,13 +589,37 @@ def exhaustive_schedules(sc, cap):
 # ------------------------------------------------------------------ replay on the real executor
 
 
+def request_tables(ex):
+    """((True, create table), (False, receive table)): outstanding requests per (remote node, id) and role,
+    however the executor stores them. The pinned tree keeps two dictionaries; if they are gone, every
+    dictionary attribute of the executor whose values are lists of `EprCmdData` is read and its entries are
+    split by role (`is_creator` if the entries carry it, else: a create request holds its LinkLayerCreate,
+    a receive request holds None), order preserved."""
+    if hasattr(ex, "_epr_create_requests") and hasattr(ex, "_epr_recv_requests"):
+        return ((True, ex._epr_create_requests), (False, ex._epr_recv_requests))
+    from netqasm.backend.executor import EprCmdData
+    create, recv = {}, {}
+    for name, val in vars(ex).items():
+        if not isinstance(val, dict):
+            continue
+        for key, lst in val.items():
+            if not (isinstance(lst, list) and isinstance(key, tuple) and len(key) == 2):
+                continue
+            for e in lst:
+                if not isinstance(e, EprCmdData):
+                    continue
+                is_creator = getattr(e, "is_creator", e.request is not None)
+                (create if is_creator else recv).setdefault(key, []).append(e)
+    return ((True, create), (False, recv))
+
+
 def canon_real(ex, uid2idx, ident2uid):
     apps = {}
     for app, um in ex._qubit_unit_modules.items():
         arrs = ex._app_arrays[app]._arrays
         apps[app] = {"arrays": {a: list(v) for a, v in sorted(arrs.items())}, "unit": list(um)}
     queues = {}
-    for creator, d in ((True, ex._epr_create_requests), (False, ex._epr_recv_requests)):
+    for creator, d in request_tables(ex):
         for (remote, purpose), lst in d.items():
             if lst:
                 queues[(remote, purpose, creator)] = [
@@ -651,13 +675,13 @@ class Oracle:
                 "queues": {}, "units": {}}
         # every outstanding create request was accepted by the network stack (`put` returned)
         accepted = ex.network_stack.requests
-        for (remote, purpose), lst in ex._epr_create_requests.items():
+        for (remote, purpose), lst in request_tables(ex)[0][1].items():
             for e in lst:
                 if not any(e.request is a for a in accepted) and id(e) not in self.unaccepted_reported:
                     self.unaccepted_reported.add(id(e))
                     self.bad("a create request the network stack never accepted is outstanding",
                              key=(remote, purpose, True), pairs=e.tot_pairs)
-        for creator, d in ((True, ex._epr_create_requests), (False, ex._epr_recv_requests)):
+        for creator, d in request_tables(ex):
             for (remote, purpose), lst in d.items():
                 key = (remote, purpose, creator)
                 snap["queues"][key] = [(id(e), e.pairs_left) for e in lst]
@@ -688,7 +712,7 @@ class Oracle:
             spec = resp_by_uid[self.ident2uid[wire_ident(r)]]
             key = spec.key()
             per_key_pending.setdefault(key, []).append(spec)
-            d = ex._epr_create_requests if key[2] else ex._epr_recv_requests
+            d = request_tables(ex)[0 if key[2] else 1][1]
             lst = d.get((key[0], key[1]), [])
             if not lst:
                 # nothing filed under the response's key; is a request for this (node, purpose, role)
@@ -943,8 +967,7 @@ class Replayer:
         self.steps = []
         self.nstarted = 0
         self.delivered = 0
-        if self.ex._pending_epr_responses or any(self.ex._epr_create_requests.values()) or \
-                any(self.ex._epr_recv_requests.values()):
+        if self.ex._pending_epr_responses or any(any(d.values()) for _, d in request_tables(self.ex)):
             self.oracle.bad("a new Executor instance starts with EPR bookkeeping state of another instance",
                             pending=len(self.ex._pending_epr_responses))
             self.oracle.foreign_reported = True
